@@ -37,6 +37,15 @@ def blob(seed, name: str, size: int) -> bytes:
             b[-1:] = b" "
         elif r == 5:
             b[-2:] = b"\r\n"
+        elif r in (6, 7) and size <= 70000:
+            # content whose SHA-256 starts (r == 6) or ends (r == 7) with a zero byte: digests are byte strings too
+            import hashlib
+
+            for n in range(4096):
+                b[-2:] = n.to_bytes(2, "big")
+                d = hashlib.sha256(b).digest()
+                if (d[0] if r == 6 else d[-1]) == 0:
+                    break
     return bytes(b)
 
 
